@@ -32,14 +32,14 @@ def save_meta(d, m):
     json.dump(m, open(os.path.join(d, "meta.json"), "w"), indent=1)
 
 
-def cmd_import(prop, letter, src):
-    d = os.path.join(SEEDED, "%s-%s" % (prop, letter))
+def cmd_import(prop, letter, src, dst_letter=None):
+    d = os.path.join(SEEDED, "%s-%s" % (prop, dst_letter or letter))
     os.makedirs(d, exist_ok=True)
     shutil.copy(os.path.join(src, "change_%s.diff" % letter), os.path.join(d, "patch.diff"))
     shutil.copy(os.path.join(src, "demo_%s.rs" % letter), os.path.join(d, "demo.rs"))
     rep = os.path.join(src, "REPORT.md")
     m = load_meta(d)
-    m.update({"id": "%s-%s" % (prop, letter), "breaks_property": prop, "origin": "sub-agent given only the property text and a scratch worktree"})
+    m.update({"id": "%s-%s" % (prop, dst_letter or letter), "breaks_property": prop, "origin": "sub-agent given only the property text and a scratch worktree"})
     if os.path.exists(rep):
         shutil.copy(rep, os.path.join(d, "agent_report.md"))
     save_meta(d, m)
@@ -106,7 +106,7 @@ def cmd_detect(sid, tier="quick", checks=None):
 if __name__ == "__main__":
     a = sys.argv[1:]
     if a[0] == "import":
-        cmd_import(a[1], a[2], a[3])
+        cmd_import(a[1], a[2], a[3], a[4] if len(a) > 4 else None)
     elif a[0] == "verify":
         sys.exit(0 if cmd_verify(a[1], a[2]) else 1)
     elif a[0] == "detect":
